@@ -15,16 +15,56 @@ R_CERT, R_NOCERT, R_ZERO = (0, 0), (1, 0), (2, 0)
 FULL_LEN = 37                  # length of the harness's full response (prefix + body); cuts are taken mod len
 
 
-def mk(cases, refsrv=0, refcli=0, tls=0, start=1, wf=0, resp=R_NOCERT, dead=-1, stderr=b"", chunk=4096, wait=None):
-    """assemble a case; `wait`: None = decide here (marker appended whenever the stderr reader exists)"""
+def mk(cases, refsrv=0, refcli=0, tls=0, start=1, wf=0, resp=R_NOCERT, dead=-1, stderr=b"", chunk=4096, wait=None, clean=0):
+    """assemble a case; `wait`: None = decide here (marker appended whenever the stderr reader exists);
+    `clean`: the server that is gone after `dead` sends exited with status 0 (result() nil), not with an error"""
     if wait is None:
         if refsrv and start:
             stderr = stderr + b"\n" + SENT + b"\n"      # the marker is a complete line: nothing hangs if an
             wait = SENT                                   # unterminated last line were dropped
         else:
             wait = b""
-    return ["c11.batch", [refsrv, refcli, tls], start, wf, list(resp), dead, bytes(stderr), chunk, bytes(wait),
-            [list(c) for c in cases]]
+    return ["c11.batch", [refsrv, refcli, tls] + ([1] if clean else []), start, wf, list(resp), dead, bytes(stderr), chunk,
+            bytes(wait), [list(c) for c in cases]]
+
+
+def proc(mode, aborts=1, pre=0, code=0, tmode=2, td=0, cmode=0, cd=0, killable=0, holds=0, wd=0, n=0):
+    """one process case: (pre code tmode td cmode cd killable holds wd n), durations in ms"""
+    return ["c11.proc", mode, aborts, [pre, code, tmode, td, cmode, cd, killable, holds, wd, n]]
+
+
+def proc_cases(rng):
+    """every child behaviour x every way of stopping it; every scripted delay is >= 1 s away from every other
+    event of the same script (5000 forced close, 10000 giving up, WaitDelay), so only the ORDER is observed"""
+    k = itertools.cycle([1, 2, 3, 2])
+    # mode 0: real OS children of the real runCommand
+    for code in (0, 3):
+        yield proc(0, next(k), pre=1, code=code, killable=1)
+    for holds in (0, 1):
+        for kw in (dict(tmode=0, td=0, code=0), dict(tmode=0, td=0, code=3), dict(tmode=1), dict(tmode=0, td=1000, code=7),
+                   dict(tmode=0, td=1000, code=0), dict(tmode=2)):
+            yield proc(0, next(k), killable=1, holds=holds, **kw)
+    # mode 1: cmdProcess over a scripted operating system
+    for code in (0, 3):
+        yield proc(1, next(k), pre=1, code=code, killable=1, wd=2500)
+    for tm, td in ((0, 0), (0, 1500), (1, 0), (2, 0)):
+        for cm, cd in ((0, 0), (1, 0), (1, 2000)):
+            for killable in (0, 1):
+                for wd in (0, 2500, 8500):
+                    yield proc(1, next(k), code=rng.choice([0, 0, 3]), tmode=tm, td=td, cmode=cm, cd=cd, killable=killable, wd=wd)
+    # mode 2: real localProcess
+    for code in (0, 1):
+        yield proc(2, next(k), pre=1, code=code, tmode=0)
+        for kw in (dict(tmode=0, td=0), dict(tmode=0, td=1500), dict(tmode=0, td=7000), dict(tmode=2)):
+            yield proc(2, next(k), code=code, **kw)
+    # modes 3, 4: runTestCasesForServer over them
+    for n in (0, 2, 5):
+        for kw in (dict(tmode=2), dict(tmode=0, td=0), dict(tmode=0, td=1500, code=3), dict(tmode=2, cmode=1, cd=2000),
+                   dict(tmode=2, killable=1, wd=2500), dict(tmode=2, killable=1, wd=8500), dict(tmode=1, wd=2500)):
+            yield proc(3, 1, n=n, **kw)
+    for n in (1, 3):
+        for kw in (dict(tmode=0, td=0), dict(tmode=0, td=1500), dict(tmode=0, td=7000), dict(tmode=2)):
+            yield proc(4, 1, n=n, **kw)
 
 
 def cs(n, answers=None, delays=None, senderr=None, names=None, feedback=None, reports=None):
@@ -45,16 +85,18 @@ LINE_SHAPES = [b"S/a: m1", b"S/b: m2", b"S/a: again", b"Q/zz: not in the batch",
 class C11(Prop):
     id = "C11"
     props = "C11_Props"
-    coq_files = ("Base", "C11_Model", "C11_Spec", "C11_Proofs", "C11_Props")
+    coq_files = ("Base", "C11_Consts", "C11_Proc", "C11_Model", "C11_Spec", "C11_Proofs", "C11_ProcProofs", "C11_Props")
     models = ("C11_Model",)
     packages = {"cc": "internal/app/connectconformance"}
-    kinds = {"c11.batch": "cc"}
+    kinds = {"c11.batch": "cc", "c11.proc": "cc"}
+    consts = ("cc",)
     go_timeout = 1500
     rule = ("c11.batch drives the real runTestCasesForServer with a scripted server process and a scripted clientRunner. "
-            "EVERY fault point for batches of 0..4 cases: start error; stdin write error at either write, close error; response empty, "
+            "EVERY fault point for batches of 0..5 cases: start error; stdin write error at either write, close error; response empty, "
             "cut at every byte, oversize, garbage, zero-length, with/without certificate x TLS on/off; server exit after k sends "
-            "(k=0..n) x sendRequest error at position p (none, 0..n-1), each with synchronous, all-late, staggered and random "
-            "answer timings; every timing vector over {own send, +1, +2, late} for n<=3 x every loop fault point; every answer "
+            "(k=0..n) in BOTH flavours (exit status 0 = result() nil, and an error) x sendRequest error at position p (none, "
+            "0..n-1), each with synchronous, all-late, staggered and random answer timings; every timing vector over {own send, "
+            "+1, +2, late} for n<=5 x every loop fault point; every answer "
             "pair for n=2; stderr streams: every sequence of <=2 line shapes (20 shapes: valid, unknown name, no colon, no space, "
             "padded, blank, nested ': ', case-changed, control characters) x LF/CRLF x terminated/unterminated x read sizes, random "
             "longer streams and random bytes; random batches of 5..12 cases with every fault kind, misreported names, duplicate "
@@ -62,14 +104,28 @@ class C11(Prop):
             "Compared at the moment the function returns: outcome kind per name (missing/pass/failed/setup/could-not-run/"
             "no-result/callback-error), number of outcomes set per name, returned, started, abort requested, process state, "
             "process-end transitions, names handed to the client; at quiescence of the stderr reader: side-band record per name, "
-            "lines passed through. thorough: the same cases again under the race detector.")
+            "lines passed through. c11.proc (process.go, ~130 cases run concurrently, 10 s): the REAL cmdProcess of runCommand "
+            "around the test binary re-executed as a scripted child (exits on SIGTERM with status 0 / non-zero, default "
+            "disposition, exits 1 s later, ignores SIGTERM, leaves a descendant holding the stdout pipe, had exited before); "
+            "cmdProcess.abort/result/whenDone/markDone over a scripted operating system (every combination of reaction to "
+            "SIGTERM x reaction to the forced close x killable or not x WaitDelay none / inside the first / inside the second "
+            "wait, 1..3 abort calls); the real localProcess of runInProcess (returns at once / late / after the period / "
+            "never); runTestCasesForServer over the scripted cmdProcess and over a localProcess with batches of 0..5. "
+            "Compared: returned within 3 x (both waits) [a correct implementation needs <= 1/3 of that], class of the error "
+            "(nil, exit status, signal, context.Canceled, gave up, deadline, own error), child gone at return (kill(pid,0)), "
+            "forced closes, passes recorded. The three durations are regenerated from the compiled code into C11_Consts.v "
+            "(gracefulShutdownPeriod; cmd.WaitDelay read from a started exec.Cmd) and abort_bounded_code is re-proved against "
+            "them. thorough: the same cases again under the race detector.")
     trusted_base = ("Coq 8.16.1 kernel (vm_compute used, native_compute not)", "extraction (ExtrOcamlBasic only) + ocaml/driver.ml",
                     "vlib generators/comparator, Go overlay harness (harness/C11): scripted process/client fakes, goroutine-dump "
                     "detection of 'parked in WaitGroup.Wait', known-flaky trie hit counters as setOutcome counters",
                     "modelled not verified: results.go (only the log of setOutcome / recordSideband calls), client_runner.go "
                     "(scripted interface; its exactly-once callback contract is C10), ReadDelimitedMessage (every read failure is "
-                    "one 'bad response'; framing is C09), process.go's real processes (the package's fakeProcess stands in: "
-                    "whenDone runs synchronously), context cancellation timing")
+                    "one 'bad response'; framing is C09); in c11.batch the package's fakeProcess stands in for the process "
+                    "(whenDone runs synchronously); process.go is modelled as a timed state machine (C11_Proc.v) whose os/exec "
+                    "part (Cancel = SIGTERM at cancellation; kill and pipe close WaitDelay later; Wait waits for the copy "
+                    "goroutines) is written from the os/exec documentation and checked against the real thing only on the "
+                    "children a test binary can play (no unkillable real process: that part runs over a scripted OS)")
     assumptions = ("the client runner fires every registered callback exactly once and none for a request whose sendRequest "
                    "returned an error (C10); a callback not fired during the send loop fires while the function waits",
                    "stderr of the reference server is ASCII (strings.TrimSpace's Unicode classes are not modelled)",
@@ -87,13 +143,22 @@ class C11(Prop):
                   "own answer whatever the timing; no case is ever missing even if the client misreports names; no callback is "
                   "outstanding at return; abort is requested iff a process was started and the process ends exactly once; stderr "
                   "lines are attributed iff their text before the first ': ' is a batch name, every other non-blank line is passed "
-                  "through verbatim in order. Model tied to server_runner.go by an exhaustive fault-point differential run.")
+                  "through verbatim in order. A server that exits with status 0 is as dead as one that crashes (run_batch does "
+                  "not depend on the flavour). process.go: for EVERY child behaviour script and all durations with a WaitDelay, "
+                  "abort();result() returns within the two waits of abort's goroutine, by then + WaitDelay the child is gone or "
+                  "was sent SIGKILL (already at return, and gone if killable, with the code's durations); localProcess within one "
+                  "period; the stop phase of runTestCasesForServer within max(both waits, 2 periods). Model tied to "
+                  "server_runner.go / process.go by an exhaustive fault-point differential run and real child processes.")
     level_note = ("Trusted: Coq kernel, extraction, OCaml driver, harness. Model-code correspondence is sampled (every fault "
-                  "point for batches <= 4), not proved. results.go, client_runner.go, process.go and ReadDelimitedMessage are "
-                  "represented by their interfaces; termination of the Go function additionally rests on the client runner "
-                  "firing every callback (C10) and on abort ending the process (process.go).")
-    technique = ("Coq proofs by induction over arbitrary fault scripts (permutation invariant of the outcome log); "
-                 "differential model-vs-Go on scripted fakes, every fault point")
+                  "point and every callback timing vector for batches <= 5; ~130 process scripts), not proved. results.go, "
+                  "client_runner.go and ReadDelimitedMessage are represented by their interfaces; termination of the Go "
+                  "function rests on the client runner firing every callback (C10), on serverResponseTimeout (C09) and on "
+                  "abort();result() returning (abort_bounded / local_bounded / batch_stop_bounded, for every child behaviour "
+                  "script). Time is modelled in ms with exact event times; the differential run observes only the ORDER of "
+                  "events more than a second apart and a 3x patience bound, never durations.")
+    technique = ("Coq proofs by induction over arbitrary fault scripts (permutation invariant of the outcome log), timed "
+                 "state machine for process.go with constants regenerated from the code; differential model-vs-Go on scripted "
+                 "fakes at every fault point and on real re-executed child processes run concurrently")
 
     # ------------------------------------------------------------------
     def nontrivial(self, case, res):
@@ -101,12 +166,31 @@ class C11(Prop):
             r = core.parse_sx("(" + res + ")")[0]
         except Exception:
             return False
+        if case[0] == "c11.proc":
+            return isinstance(r, list) and len(r) == 5 and r[0] == 1 and (r[1] != 0 or r[3] != 0 or r[4] != 0 or r[2] == 0)
         if not isinstance(r, list) or len(r) < 8:
             return False
         kinds = {p[0] for p in r[0]}
         return len(kinds) >= 2 or len(r[7]) > 1 or any(p[2] for p in r[0]) or (len(kinds) == 1 and kinds != {1})
 
     def describe(self, case, g, m):
+        if case[0] == "c11.proc":
+            what = ["a real OS child process under runCommand's cmdProcess", "cmdProcess over a scripted operating system",
+                    "a real localProcess", "runTestCasesForServer over a scripted cmdProcess",
+                    "runTestCasesForServer over a localProcess"][case[1]] if 0 <= case[1] <= 4 else "process"
+            try:
+                r = core.parse_sx("(" + g + ")")[0]
+                if isinstance(r, list) and len(r) == 5 and r[0] == 0:
+                    return ("%s: abort(); result() did NOT return within 3 x the two waits of abort's goroutine "
+                            "(property: the batch ends in bounded time)" % what)
+                mr = core.parse_sx("(" + m + ")")[0]
+                if isinstance(r, list) and len(r) == 5 and r[2] == 0 and mr[2] == 1:
+                    return ("%s: the process is still ALIVE when result() returns (property: the server is stopped "
+                            "afterwards; proved: gone or sent SIGKILL by then)" % what)
+            except Exception:
+                pass
+            return ("%s: stop behaviour (in-time, error class, child gone, forced closes, passes) differs from the proved "
+                    "timed model of process.go" % what)
         try:
             r = core.parse_sx("(" + g + ")")[0]
             if isinstance(r, list) and len(r) >= 8:
@@ -131,8 +215,9 @@ class C11(Prop):
         def rand_delays(n):
             return [rng.choice([0, 0, 1, 2, 3, LATE]) for _ in range(n)]
 
-        # (a) every fault point, batches of 0..4
-        for n in range(0, 5):
+        # (a) every fault point, batches of 0..5; a server that is gone after k sends in BOTH flavours
+        #     (exit status 0 = result() nil, and an error)
+        for n in range(0, 6):
             patterns = [(None, None), ([APASS] * n, [LATE] * n), (None, [n - 1 - i for i in range(n)]),
                         (rand_answers(n), rand_delays(n)), (rand_answers(n), rand_delays(n))]
             # before the loop
@@ -143,25 +228,29 @@ class C11(Prop):
             for kw in pre:
                 for a, d in patterns[:2] if n != 2 else patterns[:4]:
                     for refsrv in (0, 1):
-                        yield mk(cs(n, a, d), refsrv=refsrv, stderr=b"S/a: early\nplain", dead=rng.choice([-1, -1, 0, 1]), **kw)
+                        yield mk(cs(n, a, d), refsrv=refsrv, stderr=b"S/a: early\nplain", dead=rng.choice([-1, -1, 0, 1]),
+                                 clean=rng.randrange(2), **kw)
             # in the loop
             for dead in [-1] + list(range(0, n + 1)):
                 for senderr in [None] + list(range(n)):
                     for a, d in patterns:
-                        yield mk(cs(n, a, d, senderr), dead=dead, refsrv=rng.randrange(2), refcli=rng.randrange(2),
-                                 stderr=b"T/c: x\n", tls=rng.randrange(2), resp=R_CERT)
+                        for clean in ((0,) if dead < 0 else (0, 1)):
+                            yield mk(cs(n, a, d, senderr), dead=dead, refsrv=rng.randrange(2), refcli=rng.randrange(2),
+                                     stderr=b"T/c: x\n", tls=rng.randrange(2), resp=R_CERT, clean=clean)
 
         # (b) every timing vector for n <= 3 x every loop fault point; every answer pair for n = 2
-        for n in (1, 2, 3):
+        keep = {1: 1.0, 2: 1.0, 3: 1.0, 4: 1.0, 5: 1.0}
+        for n in (1, 2, 3, 4, 5):
             for delays in itertools.product([0, 1, 2, LATE], repeat=n):
                 for dead in [-1] + list(range(0, n + 1)):
                     for senderr in [None] + list(range(n)):
-                        if not quick or n < 3 or rng.random() < 0.5:
-                            yield mk(cs(n, [ANSWERS[(i + dead) % 6] for i in range(n)], list(delays), senderr), dead=dead)
+                        if rng.random() < keep[n]:
+                            yield mk(cs(n, [ANSWERS[(i + dead) % 6] for i in range(n)], list(delays), senderr), dead=dead,
+                                     clean=rng.randrange(2))
         for a in itertools.product(ANSWERS, repeat=2):
             for delays in itertools.product([0, 1, LATE], repeat=2):
                 yield mk(cs(2, list(a), list(delays)), refcli=1, tls=1, resp=R_CERT)
-                yield mk(cs(2, list(a), list(delays), rng.choice([None, 0, 1])), dead=rng.choice([-1, 0, 1, 2]))
+                yield mk(cs(2, list(a), list(delays), rng.choice([None, 0, 1])), dead=rng.choice([-1, 0, 1, 2]), clean=rng.randrange(2))
 
         # (c) stderr streams (reference server), full path, 2 cases S/a S/b (+ T/c)
         def stream(lines, eol, terminated):
@@ -226,22 +315,47 @@ class C11(Prop):
             elif r < 0.5:
                 kw = dict(tls=1, resp=R_CERT)
             yield mk(cs(n, ans, rand_delays(n), rng.choice([None] * 3 + list(range(n))), names, feedback, reports),
-                     refsrv=refsrv, refcli=refcli, dead=rng.choice([-1] * 3 + list(range(n + 1))),
+                     refsrv=refsrv, refcli=refcli, dead=rng.choice([-1] * 3 + list(range(n + 1))), clean=rng.randrange(2),
                      stderr=b"\n".join(lines), chunk=rng.choice([1, 7, 4096]), **kw)
 
         # (e) the server never answers (serverResponseTimeout = 10 s each)
         for i in range(1 if quick else 3):
             yield mk(cs(2 + i, None, [LATE] * (2 + i)), resp=(14, 0), refsrv=i % 2)
 
+        # (f) process.go: stopping the server process (real children, scripted OS, in-process); seconds each, all
+        #     started together by the harness when the run begins, so they cost the longest of them (10 s)
+        yield from proc_cases(rng)
+
     # ------------------------------------------------------------------
+    def durations(self):
+        """the durations TestVerifConsts found in the compiled code (C11_Consts.v of this run)"""
+        import re
+        txt = open(os.path.join(core.COQ, "theories", "C11_Consts.v")).read()
+        return {k: int(v) for k, v in re.findall(r"Definition c11_(\w+)_ms : N := (\d+)%N", txt)}
+
     def extra(self, ctx):
+        vs = []
+        # abort_bounded_code is proved for the durations of the compiled code; when it cannot be (the Coq build then fails
+        # in C11_ProcProofs.v), say why in terms of the code and give the child that shows it
+        d = self.durations()
+        if d and not (0 < d.get("wait_delay", 0) <= d.get("grace", 0) + d.get("grace2", 0)):
+            case = proc(0, 1, tmode=2, killable=1)
+            (g,), (m,) = ctx.eval_both([case], "waitdelay")
+            vs.append(core.Violation(
+                "process.go: runCommand sets cmd.WaitDelay = %d ms (abort's goroutine waits %d + %d ms): os/exec never kills "
+                "a server that ignores SIGTERM before result() gives up; abort_bounded_code (child gone or sent SIGKILL when "
+                "result() returns) is not provable for these durations" % (d.get("wait_delay", 0), d.get("grace", 0), d.get("grace2", 0)),
+                "; C11: the server process is not stopped: a real child that ignores SIGTERM, result (in-time class gone forced "
+                "passes), gone = 0 means kill(pid, 0) still finds it after abort(); result()\n; impl : %s\n; model: %s (the model "
+                "follows the code's WaitDelay; the THEOREM abort_bounded_code fails)\n; replay: ./check C11 --replay <this file>\n%s\n"
+                % (g, m, core.sx([case[0], 0] + list(case[1:])))))
         if ctx.tier == "quick":
-            return []
+            return vs
         # thorough: the same cases under the race detector; results must equal the plain run's
         cases = os.path.join(ctx.work, "main.cc.cases")
         plain = os.path.join(ctx.work, "main.cc.go.out")
         if not os.path.exists(cases):
-            return []
+            return vs
         binp = core.go_test_bin(self, self.packages["cc"], race=True)
         out = os.path.join(ctx.work, "race.go.out")
         if os.path.exists(out):
@@ -250,7 +364,6 @@ class C11(Prop):
                                    cwd=os.path.join(core.REPO, self.packages["cc"]), timeout=3100, check=False,
                                    extra_env={"VERIF_CASES": cases, "VERIF_OUT": out, "GORACE": "halt_on_error=0"})
         ctx.notes["t_race_s"] = round(dt, 2)
-        vs = []
         if "DATA RACE" in log:
             i = log.index("DATA RACE")
             vs.append(core.Violation("data race reported by the race detector in runTestCasesForServer run",
